@@ -237,7 +237,7 @@ RetTags(r) ==
 TReturn ==
   /\ Ev("return")
   /\ LET r == Rec[l]
-         endTags == IF Full /\ ~r.panicked THEN Tag(P.bestLb # r.best_lb, "DIV incumbent-differs-from-trace") \cup Tag(P.bestUb # r.best_ub, "DIV upper-bound-differs-from-trace")
+         endTags == IF Full /\ ~r.panicked /\ ~r.again THEN Tag(P.bestLb # r.best_lb, "DIV incumbent-differs-from-trace") \cup Tag(P.bestUb # r.best_ub, "DIV upper-bound-differs-from-trace")
                                                 \cup Tag(\E w \in 1..cfg.nspawn : ~wk[w].exited, "DIV worker-did-not-exit")
                     ELSE {} IN
      devs' = (IF Cardinality(devs) < 60 THEN devs \cup {<<t, l, run, Sig(r)>> : t \in RetTags(r) \cup endTags
